@@ -15,8 +15,8 @@ from .. import progcheck, replay, tlc
 
 def plans(tier):
     if tier == "quick":
-        return [("d1-win", 128, 3), ("d1-scan", 128, 2), ("d1-overlap", 32, 2)]
-    return [("d1-win", 128, 1), ("d1-scan", 128, 1), ("d1-overlap", 128, 1)]
+        return [("d1-win", 128, 3), ("d1-scan", 128, 2), ("d1-overlap", 32, 2), ("d1-scan-long", 4, 1)]
+    return [("d1-win", 128, 1), ("d1-scan", 128, 1), ("d1-overlap", 128, 1), ("d1-scan-long", 4, 1)]
 
 
 def run(chk):
@@ -24,9 +24,8 @@ def run(chk):
     try:
         picked = []
         for name, maxvar, stride in progcheck.dev_filter(plans(chk.tier)):
-            kw = dict(progcheck.CORPORA[name])
-            keep = kw.pop("keep", None)
-            kw.pop("observe_all", None)
+            kw, flags = progcheck.corpus_kwargs(name)
+            keep = flags["keep"]
             behs, res = replay.generate_programs(rundir=rd, timeout=3000, **kw)
             chk.add_tlc(res, f"gen:{name}")
             if keep is not None:
